@@ -257,3 +257,124 @@ Section BlockProofs.
       destruct (WDEC (nth column (solve i y) [])) as [v ->]. reflexivity.
   Qed.
 End BlockProofs.
+
+(* ---------------------------------------------------------------- matching.rs *)
+Section MatchProofs.
+  Context {amp zt : Type}.
+  Variable azero : amp.
+  Variable apos : amp -> bool.
+  Variable agt : amp -> amp -> bool.
+  Variable pcmp : amp -> amp -> option comparison.
+  Variable zf : N -> amp -> amp -> amp -> zt.
+  Variable sortW : list (N * amp) -> list (N * amp).
+  Variable sortP : list (zt * amp) -> list (zt * amp).
+
+  (* the three facts about f64 comparisons the proof uses; `num` = "is not a NaN".
+     Proved for binary64 below (f64_cmp_laws). *)
+  Variable num : amp -> Prop.
+  Definition cmp_laws : Prop :=
+    (forall v, apos v = true -> num v) /\                 (* v > 0.0 is false for a NaN *)
+    (forall a b, agt a b = true -> num a) /\              (* a > b is false when a is a NaN *)
+    (forall a b, num a -> num b -> pcmp a b <> None).     (* partial_cmp is None only with a NaN operand *)
+  Hypothesis LAWS : cmp_laws.
+
+  Lemma max_opt_lengths (l : list (list amp)) : l <> [] -> max_opt (map (@length amp) l) = Some (max_len l).
+  Proof.
+    intros H. rewrite max_opt_some by (destruct l; [congruence|discriminate]). f_equal.
+    induction l as [|a l IH]; cbn [map fold_right max_len]; auto.
+    destruct l as [|b l]. reflexivity. rewrite IH by discriminate. reflexivity.
+  Qed.
+
+  Lemma wire_hits_at_t_res_eq idxs inputs t : Forall (fun i => i < NW) idxs ->
+    wire_hits_at_t_res apos idxs inputs t = Ok (wire_hits_at_t apos idxs inputs t).
+  Proof.
+    intros F. unfold wire_hits_at_t_res, wire_hits_at_t.
+    rewrite (mapM_ok _ (fun '(index, input) =>
+                          match get_t input t with
+                          | Some v => if apos v then [(index, v)] else []
+                          | None => []
+                          end)).
+    - cbn [bind]. now rewrite flat_map_concat_map.
+    - intros [index input] Hin. apply in_combine_l in Hin.
+      destruct (get_t input t) as [v|]; auto. destruct (apos v); auto.
+      unfold wire_pos_try_from. eapply Forall_forall in F; eauto. cbn beta in F.
+      replace (index <? NW) with true by lia. reflexivity.
+  Qed.
+
+  Lemma wire_hits_num idxs inputs t h : In h (wire_hits_at_t apos idxs inputs t) -> num (snd h).
+  Proof.
+    destruct LAWS as (L1 & _). unfold wire_hits_at_t. rewrite in_flat_map. intros ([index input] & _ & H).
+    destruct (get_t input t) as [v|]; [|destruct H]. destruct (apos v) eqn:E; [|destruct H].
+    destruct H as [<-|[]]. cbn [snd]. auto.
+  Qed.
+
+  Lemma pad_loop_res_eq rest : forall row first middle t,
+    1 <= row -> row + N.of_nat (length rest) <= NROWS ->
+    pad_loop_res azero apos agt zf rest row first middle t = Ok (pad_loop azero apos agt zf rest row first middle t).
+  Proof.
+    induction rest as [|input rest IH]; intros row first middle t H1 H2; cbn [pad_loop_res pad_loop]; auto.
+    cbn [length] in H2. rewrite IH by lia.
+    destruct (apos first && apos (at_t azero input t) && agt middle first && agt middle (at_t azero input t)).
+    - unfold pad_row_try_from. replace (row - 1 <? NROWS) with true by lia. reflexivity.
+    - reflexivity.
+  Qed.
+
+  Lemma pad_hits_at_t_res_eq pci t : N.of_nat (length pci) = NROWS ->
+    pad_hits_at_t_res azero apos agt zf pci t = Ok (pad_hits_at_t azero apos agt zf pci t).
+  Proof.
+    intros H. destruct pci as [|r0 [|r1 rest]]; try (cbn in H; unfold NROWS in H; lia).
+    unfold pad_hits_at_t_res, pad_hits_at_t, idx.
+    change (N.to_nat 0) with 0%nat. change (N.to_nat 1) with 1%nat. cbn [nth_error unwrap bind skipn].
+    apply pad_loop_res_eq. lia. cbn [length] in H. lia.
+  Qed.
+
+  Lemma pad_loop_num rest : forall row first middle t h,
+    In h (pad_loop azero apos agt zf rest row first middle t) -> num (snd h).
+  Proof.
+    destruct LAWS as (_ & L2 & _).
+    induction rest as [|input rest IH]; intros row first middle t h; cbn [pad_loop]. intros [].
+    rewrite in_app_iff. intros [H|H]; [|eapply IH; eauto].
+    destruct (apos first && apos (at_t azero input t) && agt middle first && agt middle (at_t azero input t)) eqn:E;
+      [|destruct H].
+    destruct H as [<-|[]]. cbn [snd]. apply andb_true_iff in E as [E _]. apply andb_true_iff in E as [_ E]. eauto.
+  Qed.
+
+  Lemma pad_hits_num pci t h : In h (pad_hits_at_t azero apos agt zf pci t) -> num (snd h).
+  Proof. unfold pad_hits_at_t. destruct pci as [|r0 [|r1 rest]]; try (intros []). apply pad_loop_num. Qed.
+
+  Lemma sort_by_res_ok {A} (amp_of : A -> amp) (sortK : list A -> list A) (l : list A) :
+    (forall h, In h l -> num (amp_of h)) ->
+    sort_by_res (fun a b => pcmp (amp_of b) (amp_of a)) sortK l = Ok (sortK l).
+  Proof.
+    destruct LAWS as (_ & _ & L3). intros H. unfold sort_by_res.
+    replace (forallb _ l) with true; auto. symmetry. apply forallb_forall. intros x Hx.
+    apply forallb_forall. intros y Hy. specialize (L3 (amp_of y) (amp_of x) (H y Hy) (H x Hx)).
+    destruct (pcmp (amp_of y) (amp_of x)); [reflexivity|congruence].
+  Qed.
+
+  (* (4) match_column_inputs: t_max exists, the index conversions succeed, both partial_cmp().unwrap() succeed.
+     No hypothesis on the VALUES of the inputs: a NaN never becomes a hit (it fails `> 0.0`). *)
+  Theorem match_column_inputs_res_eq idxs inputs pci :
+    inputs <> [] -> Forall (fun i => i < NW) idxs -> N.of_nat (length pci) = NROWS ->
+    match_column_inputs_res azero apos agt pcmp zf sortW sortP idxs inputs pci
+    = Ok (match_column_inputs azero apos agt zf sortW sortP idxs inputs pci).
+  Proof.
+    intros Hne Hidx Hpci. unfold match_column_inputs_res, match_column_inputs.
+    rewrite max_opt_lengths by auto. cbn [unwrap bind].
+    rewrite (mapM_ok _ (fun t =>
+       match wire_hits_at_t apos idxs inputs t with
+       | [] => []
+       | _ => map (fun '((w, wa), (z, pa)) => Aval w t z wa pa)
+                  (combine (sortW (wire_hits_at_t apos idxs inputs t))
+                           (sortP (pad_hits_at_t azero apos agt zf pci t)))
+       end)).
+    - cbn [bind]. now rewrite flat_map_concat_map.
+    - intros t _. rewrite wire_hits_at_t_res_eq by auto. cbn [bind].
+      pose proof (wire_hits_num idxs inputs t) as NW_.
+      destruct (wire_hits_at_t apos idxs inputs t) as [|h wh] eqn:E; auto.
+      rewrite pad_hits_at_t_res_eq by auto. cbn [bind].
+      unfold cmpW, cmpP.
+      rewrite (sort_by_res_ok (@snd N amp)) by auto. cbn [bind].
+      rewrite (sort_by_res_ok (@snd zt amp)) by (apply pad_hits_num). cbn [bind]. reflexivity.
+  Qed.
+End MatchProofs.
